@@ -101,6 +101,9 @@ type sigCase struct {
 	Outcomes []int `json:"service_outcomes"`
 	Before   []int `json:"signals_before"` // indexes into noise
 	Shut     int   `json:"shutdown_signal"`
+	// Batch selects how the services are registered: 0 one Add call per
+	// service, 1 all in one Add call, k>=2 Add calls of k services each.
+	Batch int `json:"add_batch"`
 }
 
 var (
@@ -123,8 +126,21 @@ func runSignal(c sigCase) (what string, checks int) {
 			fail("the handler did not subscribe to signals")
 			return
 		}
+		var svcs []service.Interface
 		for i, o := range c.Outcomes {
-			h.Add(&svc{i, o, log})
+			svcs = append(svcs, &svc{i, o, log})
+		}
+		switch {
+		case c.Batch == 0:
+			for _, sv := range svcs {
+				h.Add(sv)
+			}
+		case c.Batch == 1:
+			h.Add(svcs...)
+		default:
+			for i := 0; i < len(svcs); i += c.Batch {
+				h.Add(svcs[i:min(i+c.Batch, len(svcs))]...)
+			}
 		}
 		returned := false
 		status := -1
@@ -241,7 +257,7 @@ func TestSignal(t *testing.T) {
 				step = scripts
 			}
 			for s := v % step; s < scripts; s += step {
-				c := sigCase{Outcomes: out, Before: befores[s%len(befores)], Shut: s / len(befores)}
+				c := sigCase{Outcomes: out, Before: befores[s%len(befores)], Shut: s / len(befores), Batch: (s + v) % 4}
 				w, k := runSignal(c)
 				r.Eval(int64(k))
 				total++
@@ -249,7 +265,7 @@ func TestSignal(t *testing.T) {
 					nontriv++
 				}
 				if w != "" {
-					r.Violation(fmt.Sprintf("signal:%v", c), fmt.Sprintf("SignalHandler with services whose Shutdown outcomes are %v, after signals %v then %v: %s", names(c.Outcomes), c.Before, shutdowns[c.Shut], w), c)
+					r.Violation(fmt.Sprintf("signal:%v", c), fmt.Sprintf("SignalHandler with services (registered with Add batching mode %d) whose Shutdown outcomes are %v, after signals %v then %v: %s", c.Batch, names(c.Outcomes), c.Before, shutdowns[c.Shut], w), c)
 					if r.TooMany() {
 						r.Finish()
 						t.Fail()
@@ -319,6 +335,8 @@ type fakeRefresher struct {
 	outcomes []error
 	n        int
 	ctxs     []context.Context
+	parkAt   int // index of the refresh that waits on gate (-1: none)
+	gate     chan struct{}
 }
 
 func (f *fakeRefresher) Refresh(ctx context.Context) error {
@@ -328,6 +346,11 @@ func (f *fakeRefresher) Refresh(ctx context.Context) error {
 	var err error
 	if f.n < len(f.outcomes) {
 		err = f.outcomes[f.n]
+	}
+	if f.n == f.parkAt {
+		f.n++
+		<-f.gate
+		return err
 	}
 	f.n++
 	if ctx.Err() != nil {
@@ -351,6 +374,8 @@ type refCase struct {
 	OnShutdown bool   `json:"refresh_on_shutdown"`
 	FinalFails bool   `json:"final_refresh_fails"`
 	NilOpt     bool   `json:"nil_optional_fields"` // ErrorHandler and ContextConstructor left nil
+	// TickInFinal: the final refresh is held in progress while a tick arrives.
+	TickInFinal bool `json:"tick_during_final_refresh"`
 }
 
 func runRefresh(c refCase) (what string, checks int) {
@@ -379,7 +404,10 @@ func runRefresh(c refCase) (what string, checks int) {
 		clock := &fakeClock{log: log, now: time.Unix(1000, 0)}
 		sched := &fakeSchedule{log: log}
 		cons := &fakeCons{log: log, parent: startCtx}
-		refr := &fakeRefresher{log: log, outcomes: outcomes}
+		refr := &fakeRefresher{log: log, outcomes: outcomes, parkAt: -1, gate: make(chan struct{})}
+		if c.TickInFinal && c.OnShutdown {
+			refr.parkAt = len(c.Ticks)
+		}
 		conf := &service.RefreshWorkerConfig{Clock: clock, Refresher: refr, Schedule: sched, RefreshOnShutdown: c.OnShutdown}
 		if !c.NilOpt {
 			conf.ContextConstructor = cons
@@ -501,6 +529,30 @@ func runRefresh(c refCase) (what string, checks int) {
 		done := false
 		go func() { serr = w.Shutdown(shutCtx); done = true }()
 		synctest.Wait()
+		if refr.parkAt >= 0 {
+			// Shutdown has been called and its final refresh is in progress: a tick
+			// that arrives now must not start another refresh
+			checks++
+			if done {
+				fail("Shutdown returned although its final refresh has not finished")
+				return
+			}
+			mid := len(log.snapshot())
+			select {
+			case clock.last <- clock.now:
+			default:
+			}
+			synctest.Wait()
+			time.Sleep(time.Hour)
+			synctest.Wait()
+			if ev := log.snapshot(); len(ev) != mid {
+				fail("a tick that arrived while the final refresh of Shutdown was in progress caused [%s]", strings.Join(ev[mid:], " | "))
+				close(refr.gate)
+				return
+			}
+			close(refr.gate)
+			synctest.Wait()
+		}
 		checks++
 		if !done {
 			fail("Shutdown did not return")
@@ -575,12 +627,12 @@ func TestRefresh(t *testing.T) {
 						if !onShut && ff {
 							continue
 						}
-						c := refCase{ticks, onShut, ff, nilOpt}
+						c := refCase{ticks, onShut, ff, nilOpt, onShut && (v+k)%2 == 1}
 						w, n := runRefresh(c)
 						r.Eval(int64(n))
 						total++
 						if w != "" {
-							r.Violation(fmt.Sprintf("refresh:%v", c), fmt.Sprintf("RefreshWorker with tick outcomes (true=error) %v, RefreshOnShutdown=%v, final refresh fails=%v, optional fields nil=%v: %s", c.Ticks, c.OnShutdown, c.FinalFails, c.NilOpt, w), c)
+							r.Violation(fmt.Sprintf("refresh:%v", c), fmt.Sprintf("RefreshWorker with tick outcomes (true=error) %v, RefreshOnShutdown=%v, final refresh fails=%v, optional fields nil=%v, tick during the final refresh=%v: %s", c.Ticks, c.OnShutdown, c.FinalFails, c.NilOpt, c.TickInFinal, w), c)
 							if r.TooMany() {
 								r.Finish()
 								t.Fail()
@@ -595,7 +647,7 @@ func TestRefresh(t *testing.T) {
 	r.NontrivialN(total)
 	r.Count("scenarios", total)
 	r.Exhaustive(fmt.Sprintf("every sequence of 0..%d ticks x refresh outcome {nil, error} per tick, then Shutdown x RefreshOnShutdown x final outcome, then a late tick; with instrumented and with nil optional config fields; log checked after every injected event", maxTicks))
-	r.Sample(map[string]any{"case": refCase{[]bool{false, true}, true, true, false}, "expected_log": "until 1000 | after 1000 | new 1 | refresh ctx=1 | cancel 1 | until 2000 | after 2000 | new 2 | refresh ctx=2 | cancel 2 | handle refresh-error-1 | until 3000 | after 3000 | new 3 | refresh ctx=3 | cancel 3"})
+	r.Sample(map[string]any{"case": refCase{[]bool{false, true}, true, true, false, false}, "expected_log": "until 1000 | after 1000 | new 1 | refresh ctx=1 | cancel 1 | until 2000 | after 2000 | new 2 | refresh ctx=2 | cancel 2 | handle refresh-error-1 | until 3000 | after 3000 | new 3 | refresh ctx=3 | cancel 3"})
 	if r.Finish() > 0 {
 		t.Fail()
 	}
